@@ -176,6 +176,7 @@ func ObserveStr(label string, v string)   { obs(label, "hex:"+hex.EncodeToString
 func NowNs() int64                        { return time.Now().UnixNano() }
 func At(t int64, f func())                { panic(abortRun{"zzsym.At is not replayable natively"}) }
 func FreezeClock()                        {}
+func FreezeTimers()                       {}
 func SleptNs() int64                      { return 0 }
 func TimeOf(ns int64) time.Time           { return time.Unix(0, ns) }
 
